@@ -149,6 +149,8 @@ CLAIMS['C03'] = {
              'LLFree::put returning an error (flag set) never finish with the flag set and never trap: a put of a held block can fail only in its argument check (put_LS, thread-local against '
              'arbitrary interference), and by the global invariant every block in a thread\'s hands lies in the managed range, is aligned to its order (multi-huge orders: aligned search '
              'positions of Lower::get, now part of the post-condition of every get) and has a valid order, so the check passes (Proofs/ConcPutOk.lean; put_failure_is_reported: the flag is not vacuous).'
+             ' Theorem conc_public_api_no_panic_with_tree_changes: the same panic freedom when change_tree calls (class change and/or Offline, by id or by search) run among the '
+             'other calls of any number of threads (Proofs/ConcChange.lean: such a change is a legal transition whose frames move to the ghost of the caller; a frame rule lets the existing per-call proofs run below the hidden frames).'
              ' Theorem k2_online_race_panics is a SECOND REFUTATION (known finding K2): a kernel-evaluated schedule in which a free of a held frame into an offline tree is '
              'preempted between lower.put and trees.put while change_tree(Online) fetches the lower counters; the resuming free makes Tree::put assert free <= TREE_FRAMES '
              '(k2_sequential_ok: the same two calls in sequence are fine); replayed on the real code (findings/K2-online-race.txt, conc scenario kind 6 of every run).'
@@ -167,7 +169,8 @@ CLAIMS['C04'] = {
              ' Theorems tree_stats_total / fast_total_exact: the program tree_stats() never panics, reads only, and its free total plus the frames hidden by '
              'Offline equals the exact total that stats() reports - fast = exact - offline as program outputs, in every invariant state (partition argument over '
              'the slot ranges). Theorem validate_passes: all assertions of validate() hold (it runs to the end without panic, reading only) in every invariant state '
-             'without offline trees. Theorems stats_at_frame_exact / is_free_exact: the per-frame query reports one free frame exactly if the frame is not allocated and is_free(frame, order) answers exactly whether every frame of the aligned in-range block is free, for every order 0..TREE_ORDER (counter shortcuts, single-row mask test, whole-row loop, table-entry loop), reading only. Theorems conc_quiescent_upper_invariant / conc_quiescent_fast_total / conc_quiescent_validate_passes: from any state satisfying the upper invariant, ANY number of threads running ANY lists of public calls (get with any request on every path, put of held blocks at their allocation order, drain) under ANY schedule: whenever all calls have returned the sequential upper invariant holds again (tree counter + reservations + hidden = free frames of every tree, reserved entries exactly those named by a slot, lower counters exact), so tree_stats + hidden = stats and validate() passes at every such quiescent end (upper ghost state per thread, legal transitions of tree entries and slots, invariance of the free-or-held count under every lower step; DESIGN 11.10). Theorem k3_online_race_overreports REFUTES the property for interleavings with a concurrent change_tree(Online) (known finding K3): a kernel-evaluated schedule '
+             'without offline trees. Theorems stats_at_frame_exact / is_free_exact: the per-frame query reports one free frame exactly if the frame is not allocated and is_free(frame, order) answers exactly whether every frame of the aligned in-range block is free, for every order 0..TREE_ORDER (counter shortcuts, single-row mask test, whole-row loop, table-entry loop), reading only. Theorems conc_quiescent_upper_invariant / conc_quiescent_fast_total / conc_quiescent_validate_passes: from any state satisfying the upper invariant, ANY number of threads running ANY lists of public calls (get with any request on every path, put of held blocks at their allocation order, drain) under ANY schedule: whenever all calls have returned the sequential upper invariant holds again (tree counter + reservations + hidden = free frames of every tree, reserved entries exactly those named by a slot, lower counters exact), so tree_stats + hidden = stats and validate() passes at every such quiescent end (upper ghost state per thread, legal transitions of tree entries and slots, invariance of the free-or-held count under every lower step; DESIGN 11.10). Theorems conc_quiescent_with_tree_changes / conc_quiescent_with_tree_changes_fast_total: the same with change_tree calls (class changes, Offline; by id or by search) among the concurrent calls: '
+             'every quiescent state satisfies the sequential invariant for hidden frames H\' >= H, so tree_stats + hidden = stats there too. Theorem k3_online_race_overreports REFUTES the property for interleavings with a concurrent change_tree(Online) (known finding K3): a kernel-evaluated schedule '
              'ending quiescent with tree counter 64 although only 63 frames of the tree are free (the frames of a free that raced with the Online fetch are counted twice); on the real code '
              'tree_stats().free_frames exceeds the exact count and validate() fails (findings/K3-online-race.txt, conc scenario kind 7 of every run).' + PART + 'interleavings in which a call trapped, partial frees of huge allocations (K1) and change_tree under interleavings (K3: false for Online racing with a free) are carried by '
              'the accounting oracle of the sequential and concurrent correspondence.'),
@@ -261,7 +264,10 @@ CLAIMS['C15'] = {
              '- a tree taken offline and not yet online again - is never allocated from: no get, with or without target, through any slot, on any path, returns '
              'one of its frames. This follows from exact accounting in the invariant (tree counter + reservations + hidden frames H i = free frames of the tree, '
              'with the same hidden amounts before and after an allocation): the counters of the tree of a returned block covered the block before the call. '
-             'Offline moves the counter into H i, Online sets H i = 0, nothing else changes H; the fast free count excludes exactly H (C04).'),
+             'Offline moves the counter into H i, Online sets H i = 0, nothing else changes H; the fast free count excludes exactly H (C04). '
+             'Theorem conc_hidden_frames_stay_free: under EVERY interleaving of any number of threads that allocate, free, drain and change trees (class change and/or Offline, by id or by search) '
+             'every quiescent end satisfies the invariant with hidden frames H\' >= H and, tree by tree, counter + reservations + H\' i = free frames: nothing was allocated from the frames an Offline call hid, whatever raced with it. '
+             'Online under interleavings is refuted (C04.k3_online_race_overreports: the restoration is not exact when a free is in flight; known finding K3).'),
     'note': TB + ' Upper-level theorems hold for configurations satisfying CfgOk (class ids < 8, ordered policy, tree size < 2^19: every configuration of the repository; derived from elementary checks by CfgOk.of_checks); they depend on the C23 theorem (bv_decide axioms) through the lower search.' + ' Model deviation recorded in DESIGN.md: Online reads the lower counters before the update closure.',
     'technique': 'Lean 4 proof of change_tree against the upper invariant with exact accounting of hidden frames (from which "never allocated from" follows for every history) + theorems about the tree steps + change-heavy sequential differential',
 }
